@@ -132,6 +132,10 @@ type Net struct {
 	Events    []NetEvent
 	Fired     map[string]int // fault kinds that actually fired
 
+	// MaxProxyTCPConns > 0: the program may hold at most this many open connections (its descriptor limit, counting
+	// connections only); accept fails with EMFILE beyond it.
+	MaxProxyTCPConns int
+
 	// DialFaults: scripted outcomes for the program's dials, keyed by
 	// destination "ip:port"; consumed in order.
 	DialFaults map[string][]string // "refuse" | "reset" (accept then reset) | "ok"
